@@ -934,7 +934,11 @@ class Tensor:
             # a constant view of a non-constant base has no gradient
             return None
 
-        if self._view_grad is not None and self._view_grad.base is self._base._grad:
+        if (
+            self._view_grad is not None
+            and self._base._grad is not None
+            and self._view_grad.base is self._base._grad
+        ):
             # view grad has been computed already
             return self._view_grad
 
